@@ -56,6 +56,9 @@ namespace options
                const std::string& about = std::string(""),
                const std::string& group = std::string("arguments"));
 
+        parser(parser&& other);
+        parser& operator=(parser&& other);
+
         auto parse(int argc, const char* const argv[]) -> arguments;
         auto parse(const std::vector<options::user_input>& args) -> arguments;
 
@@ -81,6 +84,7 @@ namespace options
 
     private:
         void check_parser_consistency();
+        void adopt_groups();
 
         std::map<std::string, nitro::options::option*> get_all_options() const;
         std::map<std::string, nitro::options::multi_option*> get_all_multi_options() const;
